@@ -79,6 +79,9 @@ static void b_dupopt(unsigned n)
 			if (src[i].def.parsed) CHECK("C18,C16", __CPROVER_r_ok(src[i].def.parsed, 2), "the caller's parsed defaults stay alive, also when the copy fails half-way");
 			if (src[i].comment) CHECK("C18,C16", __CPROVER_r_ok(src[i].comment, 2), "the caller's comments stay alive, also when the copy fails half-way");
 		}
+#ifdef CFGV_NO_ALLOC_FAILURE
+	CHECK("C16", dup != NULL, "copying a declaration array succeeds (no allocation failure in this unit)");
+#endif
 	if (dup) {
 		CHECK("C16", dup != src && dup[n].name == NULL, "the copy is a new array with its terminator");
 		for (unsigned i = 0; i < NOPT; i++)
@@ -118,6 +121,9 @@ void h_cfg_init(void)
 	memset(decl, 0, sizeof decl);
 	g_initdef_calls = 0; g_dup_calls = 0;
 	cfg = cfg_init(decl, flags);
+#ifdef CFGV_NO_ALLOC_FAILURE
+	CHECK("C01,C16", cfg != NULL, "creating a context succeeds (no allocation failure in this unit)");
+#endif
 	if (cfg) {
 		CHECK("C16", g_dup_calls == 1 && g_dup_arg == decl && cfg->opts == g_dup_result && cfg->opts != decl, "a context works on a private copy of the declarations");
 		CHECK("C01,C12", g_initdef_calls == 1 && g_initdef_arg == cfg && g_initdef_flags_seen == flags, "the context flags are in place before the defaults (and the single sections they create) are materialised");
@@ -193,6 +199,9 @@ static void b_addopt(unsigned n)
 	for (unsigned i = 0; i < n; i++) { cfg.opts[i].name = str1(); cfg.opts[i].type = CFGT_STR; names[i] = cfg.opts[i].name; }
 	key[0] = nondet_char(); key[1] = 0;
 	r = cfg_addopt(&cfg, key);
+#ifdef CFGV_NO_ALLOC_FAILURE
+	CHECK("C01", r != NULL, "creating a free-form key succeeds (no allocation failure in this unit)");
+#endif
 	CHECK("C18", cfg.opts != NULL && __CPROVER_r_ok(cfg.opts, (n + 1) * sizeof(cfg_opt_t)), "after adding a key - or failing to - the context owns a live option array");
 	if (r) {
 		CHECK("C01", r == &cfg.opts[n] && r->type == CFGT_STR && r->name != NULL && r->name != key && r->name[0] == key[0] && cfg.opts[n + 1].name == NULL, "a new free-form key is a string option appended before the terminator, named by a private copy");
